@@ -48,9 +48,9 @@ type descriptor struct {
 }
 
 type built struct {
-	prog          *gen.Program
-	A             string
-	B             [3]string // branch tasks: default, sel==1, sel==2
+	prog *gen.Program
+	A    string
+	B    [3]string // branch tasks: default, sel==1, sel==2
 }
 
 func build(d descriptor) *built {
